@@ -280,6 +280,23 @@ def run_domain(name, fast=True):
             cmd = {"serde": "serdecheck", "printcheck": "printcheck", "alist": "alistcheck"}[name]
             r = RP.run_cmd([cmd], fast=True, timeout=600)
             _CACHE[key] = (r.get("cases", 0), [{"kind": "corpus", "cmd": cmd, "what": b} for b in r.get("bad", [])])
+        elif name == "value_vs_datum":
+            # the two native readers against each other (no reference involved): same items, same error code and position
+            cases = corpus_lists() + corpus_truncation() + corpus_tokens([DEFAULT, ELISP, P(k=7, nil=2, t=0, dg=1, rk=1)])
+            n, bad = 0, []
+            for src in ("slice", "reader"):
+                sub = [(d, o.s()) for d, o in cases]
+                nv = RP.parse_batch(sub, src, "value", fast)
+                nd = RP.parse_batch(sub, src, "datum", fast)
+                n += 2 * len(sub)
+                for (d, o), a, b in zip(cases, nv, nd):
+                    if a != b:
+                        bad.append({"input_hex": d.hex(), "input": d.decode("latin-1"), "opts": o.s(), "src": src, "api": "datum", "fast": fast,
+                                    "expected": _short(a), "observed": _short(b), "why": "value reader and datum reader differ"})
+                        break
+                if bad:
+                    break
+            _CACHE[key] = (n, bad)
         elif name == "tokens_datum":
             # the location-tracking reader on the token corpus (a subset of the option sets: every keyword-flag set x digit mode)
             opts = [P(k=k, nil=nil, t=0, dg=dg, rk=1) for k in range(8) for nil in (0, 2) for dg in (0, 1)]
